@@ -38,6 +38,9 @@ class remove_carriage_return_after_token(structure.Rule):
     def _analyze(self, lToi):
         for oToi in lToi:
             lTokens = oToi.get_tokens()
+            if any(isinstance(oToken, parser.comment) for oToken in lTokens):
+                # a comment runs to the end of its line: the line breaks of this region cannot be removed
+                continue
             for iToken, oToken in enumerate(lTokens[: len(lTokens)]):
                 if iToken < 3:
                     if isinstance(oToken, parser.carriage_return):
